@@ -21,11 +21,16 @@ type GenParams struct {
 	StaleBinds  bool    // allow binds while the pod lister shows another incarnation
 	Identities  int     // max pod identities per history
 	SyncAfter   float64 // probability that a truth change is followed by a lister sync
+	// the Binding call (every bind that does not end in a clean "ok" or NotFound costs the 3 s of Bind's retry loop):
+	RebindWeight  float64 // weight of a repeated bind of an already bound live pod (same or another node)
+	BindAnswerPct int     // % of binds whose Binding response is lost (applied, timeout returned) or that meet an unavailable apiserver
+	SlowBindCap   int     // at most this many such binds per history
+	Par           int     // histories executed concurrently (0 = 48)
 }
 
 func DefaultParams() GenParams {
 	return GenParams{Len: 45, ProviderPct: 30, FaultPct: 10, PFaultPct: 10, VaryRanges: false, StaleBinds: false,
-		Identities: 6, SyncAfter: 0.65}
+		Identities: 6, SyncAfter: 0.65, RebindWeight: 0, BindAnswerPct: 0, SlowBindCap: 0}
 }
 
 var subnetPalette = []Subnet{{0x0a090100, 24}, {0x0a090200, 24}, {0x0a090300, 26}, {0x0a090407, 32}}
@@ -114,6 +119,8 @@ type Gen struct {
 	conf      Conf
 	ids       []identity
 	intent    string          // pod "ns/name" that was just filtered (the next op binds it on an approved node)
+	retry     string          // "ns name node": the scheduler did not get an answer to this bind and will send it again
+	slow      int             // binds issued so far that cost the retry loop
 	needSync  bool            // truth changed since the last sync
 	delayed   map[string]bool // event (uid) marked as delayed
 	prelude   []string
@@ -243,6 +250,17 @@ func (g *Gen) Next(w *World, step int) string {
 		return l
 	}
 	rng := g.rng
+	// a bind the scheduler got an error for is sent again (same pod, same node)
+	if g.retry != "" {
+		x := strings.Fields(g.retry)
+		g.retry = ""
+		if rng.Intn(100) < 85 {
+			g.slow++ // (answered "already assigned" if the first one was applied)
+			if l := g.bindLine(w, x[0], x[1], x[2]); l != "" {
+				return l
+			}
+		}
+	}
 	// a filter is normally followed by the bind on one of the nodes it approved
 	if g.intent != "" {
 		id := g.intent
@@ -306,10 +324,19 @@ func (g *Gen) Next(w *World, step int) string {
 				return fmt.Sprintf("preempt %s %s n1,n2,n3,n4 ? ? %d", id.ns, id.name, f)
 			})
 		}
-		if bound {
-			add(0.4, func() string {
-				return g.bindLine(w, id.ns, id.name, g.conf.Nodes[rng.Intn(len(g.conf.Nodes))].Name)
+		if bound && g.slow < g.p.SlowBindCap && !Finished(p) {
+			// the scheduler repeats the bind of a pod that is already bound (it missed the answer, or it restarted):
+			// same node, or another one
+			add(g.p.RebindWeight, func() string {
+				g.slow++
+				node := p.Spec.NodeName
+				if rng.Intn(100) < 35 || node == "" {
+					node = g.conf.Nodes[rng.Intn(len(g.conf.Nodes))].Name
+				}
+				return g.bindLine(w, id.ns, id.name, node)
 			})
+		}
+		if bound {
 			add(0.3, func() string { return fmt.Sprintf("filter %s %s n1,n2,n3 ? ? 0", id.ns, id.name) })
 			if p.Status.Phase != corev1.PodRunning && !Finished(p) {
 				add(1.5, func() string { g.needSync = true; return fmt.Sprintf("pod run %s %s", id.ns, id.name) })
@@ -318,6 +345,17 @@ func (g *Gen) Next(w *World, step int) string {
 		wt := 1.2
 		if bound {
 			wt = 4
+		}
+		if p.DeletionTimestamp == nil {
+			// graceful deletion: the pod lingers (terminating) while everything else goes on - resync, Release requests,
+			// events, the replacement pod's filter and bind - and is really deleted later
+			add(wt*0.45, func() string {
+				g.needSync = true
+				f, _ := g.fault(w, true)
+				return fmt.Sprintf("pod term %s %s %d", id.ns, id.name, f)
+			})
+		} else {
+			wt *= 0.35 // the grace period lasts a while
 		}
 		add(wt, func() string { g.needSync = true; return fmt.Sprintf("pod delete %s %s", id.ns, id.name) })
 		if !Finished(p) {
@@ -482,7 +520,17 @@ func (g *Gen) bindLine(w *World, ns, name, node string) string {
 			f = 1 + g.rng.Intn(3) // the later calls (pods/binding) cost a 500 ms retry: keep them rare
 		}
 	}
-	return fmt.Sprintf("bind %s %s %s %s ? ? %d %d", ns, name, uid, node, f, pf)
+	line := fmt.Sprintf("bind %s %s %s %s ? ? %d %d", ns, name, uid, node, f, pf)
+	if g.slow < g.p.SlowBindCap && g.rng.Intn(100) < g.p.BindAnswerPct {
+		g.slow++
+		if g.rng.Intn(100) < 75 {
+			line += " lost"
+		} else {
+			line += " unavail"
+		}
+		g.retry = ns + " " + name + " " + node
+	}
+	return line
 }
 
 func (g *Gen) releaseLine(w *World, multiOK bool) string {
